@@ -79,6 +79,7 @@ type Gen struct {
 	Panics              int
 	boundaryStartUsed   bool
 	quiet               bool // suppress per-field hostility (multi-entry messages must have a chance to succeed)
+	script              []func() *eng.Tx // follow-up steps queued by a scenario generator; drained before random choice
 }
 
 type originRef struct{ ClassID, ID, Source string }
@@ -119,6 +120,13 @@ func (g *Gen) add(name string, f func() *eng.Tx) {
 
 // Next proposes the next transaction (possibly multi-message).
 func (g *Gen) Next() *eng.Tx {
+	for len(g.script) > 0 {
+		f := g.script[0]
+		g.script = g.script[1:]
+		if tx := g.safe(f); tx != nil {
+			return tx
+		}
+	}
 	for tries := 0; tries < 50; tries++ {
 		n := g.R.Intn(g.total)
 		var ng namedGen
